@@ -222,3 +222,38 @@ func VerifC09StakingAtomic() {
 		rt.Assert(after.Equal(sOwner.Sub(sdkmath.LegacyNewDecFromBigInt(xb))), "the committed call moved the shares")
 	}
 }
+
+// VerifC09ApproveShares: approveShares through the real Run, by an arbitrary direct caller. The
+// allowance is written inside ExecuteNativeAction (so the EVM journal can undo it together with
+// the call frame), for exactly (validator, caller, spender) and exactly the given shares; other
+// owners' and other spenders' allowances are untouched; exactly one log.
+func VerifC09ApproveShares() {
+	e := verifNewStakingEnv(0)
+	e.k.stakingKeeper = verifSK{l: e.ledger}
+	e.withRevert()
+	owner, spender, other := verifAcc[0], verifAcc[1], verifAcc[2]
+	old := rt.BigInt("allowance.before")
+	xb := rt.BigInt("shares")
+	lim := new(big.Int).Lsh(big.NewInt(1), 200)
+	rt.Assume(rt.And(old.Sign() >= 0, old.Cmp(lim) < 0, xb.Sign() >= 0, xb.Cmp(lim) < 0))
+	e.ledger.SetAllowance(e.ctx, verifValAddr, owner.Bytes(), spender.Bytes(), old)
+	e.ledger.SetAllowance(e.ctx, verifValAddr, owner.Bytes(), other.Bytes(), big.NewInt(11))
+	e.ledger.SetAllowance(e.ctx, verifValAddr, other.Bytes(), spender.Bytes(), big.NewInt(13))
+	e.ledger.Guard = func() { rt.Assert(e.sdb.Depth > 0, "Cosmos state is changed only inside ExecuteNativeAction") }
+	m := NewApproveSharesMethod(e.k)
+	input, perr := m.PackInput(fxstakingtypes.ApproveSharesArgs{Validator: verifValAddr.String(), Spender: spender, Shares: xb})
+	if perr != nil {
+		rt.Assert(false, "harness: cannot pack input")
+		return
+	}
+	_, err := m.Run(e.evm, verifFrame(owner, input))
+	rt.Cover("called")
+	if err != nil {
+		rt.Assert(false, "approving shares for a valid validator does not fail")
+		return
+	}
+	rt.Assert(e.ledger.GetAllowance(e.ctx, verifValAddr, owner.Bytes(), spender.Bytes()).Cmp(xb) == 0, "the allowance of (caller, spender) is exactly the approved shares")
+	rt.Assert(e.ledger.GetAllowance(e.ctx, verifValAddr, owner.Bytes(), other.Bytes()).Cmp(big.NewInt(11)) == 0 &&
+		e.ledger.GetAllowance(e.ctx, verifValAddr, other.Bytes(), spender.Bytes()).Cmp(big.NewInt(13)) == 0, "other owners' and other spenders' allowances are untouched")
+	rt.Assert(len(e.sdb.Logs) == 1, "exactly one log")
+}
